@@ -208,7 +208,7 @@ func init() {
 			return tuple{strToBytes("null"), nilError()}
 		}
 		// a top-level value with its own MarshalJSON produces real JSON text
-		if p, isPtr := it.v.(*value); !(isPtr && p == nil) {
+		if p, isPtr := it.v.(*value); !(isPtr && p == nil) && strings.Contains(it.t.String(), "bitxhub-kit/types.") {
 			if r, ok := callMethod(fr, it.t, it.v, "MarshalJSON"); ok {
 				return r
 			}
@@ -397,6 +397,21 @@ func init() {
 	})
 	reg(zz+"BigLt", func(fr *frame, args []value) value {
 		return mkSym(term.IntCmp("<", bigOf(args[0]), bigOf(args[1])), types.Bool)
+	})
+	reg(zz+"Methods", func(fr *frame, args []value) value {
+		it := args[0].(iface)
+		if it.t == nil {
+			return []value(nil)
+		}
+		ms := fr.i.prog.MethodSets.MethodSet(it.t)
+		var names []string
+		for k := 0; k < ms.Len(); k++ {
+			if o := ms.At(k).Obj(); o.Exported() {
+				names = append(names, o.Name())
+			}
+		}
+		sortStrings(names)
+		return strsValue(names)
 	})
 	reg(zz+"HashForkOff", func(fr *frame, args []value) value {
 		fr.i.ps.NoHashFork = true
